@@ -996,8 +996,9 @@ def do_int(value: t.Any, default: int = 0, base: int = 10) -> int:
             return int(value, base)
 
         return int(value)
-    except (TypeError, ValueError):
+    except (TypeError, ValueError, OverflowError):
         # this quirk is necessary so that "42.23"|int gives 42.
+        # OverflowError: int(float("inf")) must give the default as well.
         try:
             return int(float(value))
         except (TypeError, ValueError, OverflowError):
@@ -1011,7 +1012,8 @@ def do_float(value: t.Any, default: float = 0.0) -> float:
     """
     try:
         return float(value)
-    except (TypeError, ValueError):
+    except (TypeError, ValueError, OverflowError):
+        # OverflowError: an int too large for a float gives the default.
         return default
 
 
